@@ -48,6 +48,9 @@ type c18Outcome struct {
 
 var c18HealthyVariants = []string{"plain", "la-applied", "la-partial", "la-staged"}
 
+// the (variant, final_tree_head) combinations of the quick tier; thorough runs all twelve
+var c18QuickFinal = map[string]bool{"plain+eq": true, "plain+behind": true, "la-applied+lock": true, "la-applied+eq": true, "la-partial+lock": true}
+
 // c18Subsets lists all non-empty subsets of set (ascending), simplest first:
 // by length, then lexicographically.
 func c18Subsets(set []int64) [][]int64 {
@@ -192,9 +195,12 @@ func TestVerifC18(t *testing.T) {
 			stop = true
 			return
 		}
-		// every third case of a shard also goes through the built binary
+		// every third (quick: fourth) case of a shard also goes through the built binary
 		// (mirror cases: every sixth, a config file holds one witness directory)
 		every := 3
+		if !thorough {
+			every = 4
+		}
 		if c.Kind == "mirror" {
 			every = 6
 		}
@@ -239,6 +245,9 @@ func TestVerifC18(t *testing.T) {
 		if thorough || len(h) <= 3 || len(h) >= len(small)-1 {
 			for vi, v := range c18HealthyVariants {
 				for fi, f := range []string{"eq", "lock", "behind"} {
+					if !thorough && !c18QuickFinal[v+"+"+f] {
+						continue
+					}
 					run(c18Case{Kind: "ref", Hist: h, Variant: v, Final: f, Immut: (hi+vi+fi)%5 == 0})
 				}
 			}
@@ -279,13 +288,16 @@ func TestVerifC18(t *testing.T) {
 			run(c18Case{Kind: "mirror", Hist: h, Variant: v, Immut: (hi+vi)%4 == 0})
 		}
 		for _, v := range []string{"tmp-in-pdir", "empty-full", "missing-full", "bad-width-late", "dir-as-full"} {
+			if !thorough && len(h) > 3 {
+				break // quick: mirror leftovers on histories of <=3 requests
+			}
 			run(c18Case{Kind: "mirror", Hist: h, Variant: v})
 		}
 	}
 
 	// B. directories written by the real log
 	for hi, h := range smallHists {
-		if !thorough && len(h) > 2 && len(h) < len(small)-1 {
+		if !thorough && len(h) > 2 && len(h) < len(small) {
 			continue
 		}
 		for vi := range c18HealthyVariants {
@@ -295,7 +307,9 @@ func TestVerifC18(t *testing.T) {
 		}
 		// the real log went read-only with the lock store ahead / level / final behind
 		run(c18Case{Kind: "real", Hist: h, Variant: "la-applied", Final: "lock", Immut: hi%4 == 1})
-		run(c18Case{Kind: "real", Hist: h, Variant: []string{"plain", "la-partial", "la-staged"}[hi%3], Final: []string{"eq", "lock", "behind"}[(hi/3)%3]})
+		if thorough {
+			run(c18Case{Kind: "real", Hist: h, Variant: []string{"plain", "la-partial", "la-staged"}[hi%3], Final: []string{"eq", "lock", "behind"}[(hi/3)%3]})
+		}
 	}
 
 	// E. complete trees around the level-1 boundary
@@ -306,7 +320,7 @@ func TestVerifC18(t *testing.T) {
 		bigDecoys = []string{"tmp-in-pdir", "empty-full", "missing-full", "bad-width-late", "stray"}
 	}
 	for hi, h := range c18Subsets(big) {
-		if h[len(h)-1] < 65535 {
+		if h[len(h)-1] < 65535 || (!thorough && len(h) == 3) {
 			continue
 		}
 		for vi, v := range c18HealthyVariants {
